@@ -24,6 +24,9 @@ BASKET_BOUNDS = {"all": {"round_abstract": 1, "dec_coeff_form": 1},
                  "quick": {"list": 1, "iter": 1, "exp_lo": -12, "exp_hi": 12, "digits": 45},
                  "thorough": {"list": 2, "iter": 1, "exp_lo": -12, "exp_hi": 12, "digits": 45}}
 BASKET_BOUNDS_L1 = {"all": {"round_abstract": 1, "dec_coeff_form": 1, "list": 1, "iter": 1, "exp_lo": -12, "exp_hi": 12, "digits": 45}}
+# ValidateGenesis on the table model: at most iter rows per table
+GENESIS_BOUNDS = {"all": {"round_abstract": 1, "dec_coeff_form": 1, "list": 1, "exp_lo": -12, "exp_hi": 12, "digits": 45},
+                  "quick": {"iter": 1}, "thorough": {"iter": 1}}
 STEP_BOUNDS_L1 = {"all": {"round_abstract": 1, "list": 1, "iter": 1, "exp_lo": -12, "exp_hi": 12, "digits": 45}}
 BUYTWO_BOUNDS = {"all": {"round_abstract": 1, "list": 2, "iter": 1, "exp_lo": -12, "exp_hi": 12, "digits": 45}}
 
@@ -37,7 +40,7 @@ HASH_BOUNDS = {"quick": {"hash_lo": 20, "hash_hi": 64, "hash_step": 22},
                "thorough": {"hash_lo": 20, "hash_hi": 64, "hash_step": 1}}
 
 ID_BOUNDS = {"quick": {"seq_digits": 5, "denom_lo": 27, "denom_hi": 30},
-             "thorough": {"seq_digits": 20, "denom_lo": 25, "denom_hi": 34}}
+             "thorough": {"seq_digits": 8, "denom_lo": 26, "denom_hi": 31}}
 
 # data module: list = content hashes per message, iter = probes of the id table per content
 # hash (collision chains of iter-1 occupied slots)
@@ -106,7 +109,9 @@ PROPS = {
     "C07": {"title": "BuyDirect settles exactly", "runs": [kernel_cost(), kernel_rounding()] + step_runs(),
             "technique": "go/ssa symbolic execution of the cost/fee kernel against exact rationals + SMT (non-linear real/integer arithmetic), plus the BuyDirect step harness"},
     "C08": {"title": "authorisation and sealed batches", "runs": step_runs(), "technique": STEP_TECH + "; role predicate on the pre-state for every successful path"},
-    "C09": {"title": "genesis export/validate/re-import (kernel: state validators are handler invariants)", "runs": step_runs(),
+    "C09": {"title": "genesis export/validate/re-import (state validators are handler invariants; ValidateGenesis accepts every invariant state)",
+            "runs": step_runs() + [{"module": "ecocredit", "pkg": "./genesis", "harness": "C09_.*", "bounds": GENESIS_BOUNDS,
+                                    "budget_s": {"quick": 1500, "thorough": 7200}}],
             "technique": STEP_TECH + "; the real Validate() of each state type (merged to one formula) asserted on every written row"},
     "C10": {"title": "handler-level determinism and statelessness (self-composition)",
             "runs": [{"module": "ecocredit", "pkg": "./base/keeper", "harness": "C10_.*", "bounds": STEP_BOUNDS_L1},
